@@ -1,4 +1,4 @@
-CONSTANTS Enforce <- TraceEnforce  Configs = {}  Requests = {}  Opcodes = {}  LenClasses = {}
+CONSTANTS Enforce <- TraceEnforce  Configs = {}  Requests = {}  Opcodes = {}  LenClasses = {}  DbSlots = {}
 SPECIFICATION TSpec
 INVARIANTS TypeOK
 CHECK_DEADLOCK FALSE
